@@ -315,11 +315,19 @@ fn build_command(
         command.stdin(Stdio::null());
     }
 
-    if let Output::Named(output) = output_conf {
-        command.stdout(Stdio::null());
-        create_named_pipe(output)?;
-    } else {
-        command.stdout(Stdio::piped());
+    // The standard output of the program is piped only if it is going to be read.
+    // A pipe that nobody reads would block a program that prints more than the pipe can buffer.
+    match output_conf {
+        Output::StdOut => {
+            command.stdout(Stdio::piped());
+        }
+        Output::Named(output) => {
+            command.stdout(Stdio::null());
+            create_named_pipe(output)?;
+        }
+        Output::InPlace(_) => {
+            command.stdout(Stdio::null());
+        }
     }
 
     Ok(command)
